@@ -3,7 +3,9 @@
 # the digests of the logical outputs are compared with the default build (DESIGN.md section 6, C17).
 set -u
 TIER="${1:-quick}"
-cd /verif
+cd "$(dirname "$0")"
+V="$(pwd)"
+export VERIF_ROOT="$V"
 export CARGO_NET_OFFLINE=true MALLOC_TRIM_THRESHOLD_=2000000000 MALLOC_TOP_PAD_=67108864
 T0=$(date +%s.%N)
 # name|toolchain|cargo feature args
@@ -16,25 +18,25 @@ simd-nostd|+nightly|--features simd-accel
 simd-std-fast|+nightly|--features simd-accel,std,fast-legacy"
 if [ "$TIER" = "thorough" ]; then CFGS="$CFGS_QUICK
 $CFGS_MORE"; else CFGS="$CFGS_QUICK"; fi
-mkdir -p /verif/c17
+mkdir -p $V/c17
 # ---- build all configurations (in parallel; each has its own target directory)
 PIDS=""
 while IFS='|' read -r NAME TOOL ARGS; do
   [ -z "$NAME" ] && continue
-  ( cd /verif/harness && flock /verif/.build-target-$NAME.lock env CARGO_TARGET_DIR=/verif/target-$NAME cargo $TOOL build --release --offline $ARGS >/verif/.build-target-$NAME.log 2>&1 ) &
+  ( cd $V/harness && flock $V/.build-target-$NAME.lock env CARGO_TARGET_DIR=$V/target-$NAME cargo $TOOL build --release --offline $ARGS >$V/.build-target-$NAME.log 2>&1 ) &
   PIDS="$PIDS $!"
 done <<< "$CFGS"
 FAIL=0
 for P in $PIDS; do wait $P || FAIL=1; done
-if [ $FAIL -ne 0 ]; then echo "MACHINERY: a build configuration failed to build (see /verif/.build-target-*.log)" >&2; tail -5 /verif/.build-target-*.log >&2; exit 2; fi
+if [ $FAIL -ne 0 ]; then echo "MACHINERY: a build configuration failed to build (see $V/.build-target-*.log)" >&2; tail -5 $V/.build-target-*.log >&2; exit 2; fi
 # ---- run the corpus in every configuration (sequentially: each run uses all cores)
 while IFS='|' read -r NAME TOOL ARGS; do
   [ -z "$NAME" ] && continue
-  mkdir -p /verif/c17/$NAME
-  rm -f /verif/c17/$NAME/digests.txt
-  VERIF_DIR=/verif/c17/$NAME VERIF_DIGEST_OUT=/verif/c17/$NAME/digests.txt /verif/target-$NAME/release/vh check C17CORPUS --tier "$TIER" > /verif/c17/$NAME/run.log 2>&1
+  mkdir -p $V/c17/$NAME
+  rm -f $V/c17/$NAME/digests.txt
+  VERIF_DIR=$V/c17/$NAME VERIF_DIGEST_OUT=$V/c17/$NAME/digests.txt $V/target-$NAME/release/vh check C17CORPUS --tier "$TIER" > $V/c17/$NAME/run.log 2>&1
   RC=$?
-  if [ ! -s /verif/c17/$NAME/digests.txt ]; then echo "MACHINERY: corpus run failed in configuration $NAME (exit $RC)" >&2; tail -5 /verif/c17/$NAME/run.log >&2; exit 2; fi
+  if [ ! -s $V/c17/$NAME/digests.txt ]; then echo "MACHINERY: corpus run failed in configuration $NAME (exit $RC)" >&2; tail -5 $V/c17/$NAME/run.log >&2; exit 2; fi
 done <<< "$CFGS"
 T1=$(date +%s.%N)
-exec python3 /verif/tools/c17_compare.py "$TIER" "$T0" "$T1" $(echo "$CFGS" | cut -d'|' -f1 | tr '\n' ' ')
+exec python3 $V/tools/c17_compare.py "$TIER" "$T0" "$T1" $(echo "$CFGS" | cut -d'|' -f1 | tr '\n' ' ')
